@@ -16,6 +16,16 @@ from fractions import Fraction
 
 import z3
 
+
+def _prod(xs):
+    xs = list(xs)
+    return xs[0] if len(xs) == 1 else z3.Product(xs)
+
+
+def _sum(xs):
+    xs = list(xs)
+    return xs[0] if len(xs) == 1 else z3.Sum(xs)
+
 from . import expr as E
 
 
@@ -72,9 +82,9 @@ class Tr:
         if op == "toreal":
             return z3.ToReal(self.memo[n.args[0].id])
         if op == "add":
-            return z3.Sum([self.num(a, n.sort) for a in n.args])
+            return _sum([self.num(a, n.sort) for a in n.args])
         if op == "mul":
-            return z3.Product([self.num(a, n.sort) for a in n.args])
+            return _prod([self.num(a, n.sort) for a in n.args])
         if op == "pow":
             b = n.args[0]
             e = n.val
@@ -82,18 +92,18 @@ class Tr:
                 k = int(e)
                 zb = self.num(b, n.sort if k > 0 else E.R)
                 if k > 0:
-                    return z3.Product([zb] * k)
+                    return _prod([zb] * k)
                 zb = self.num(b, E.R)
-                return 1 / z3.Product([zb] * (-k))
+                return 1 / _prod([zb] * (-k))
             zb = self.num(b, E.R)
             key = ("root", b.id, e.denominator)
             s = self.divmod.get(key)
             if s is None:
                 s = self._fresh("root", E.R)
                 self.divmod[key] = s
-                self.side.append(z3.Implies(zb >= 0, z3.And(s >= 0, z3.Product([s] * e.denominator) == zb)))
+                self.side.append(z3.Implies(zb >= 0, z3.And(s >= 0, _prod([s] * e.denominator) == zb)))
             p = abs(e.numerator)
-            r = z3.Product([s] * p) if p > 1 else s
+            r = _prod([s] * p) if p > 1 else s
             return r if e > 0 else 1 / r
         if op == "exp":
             f = self.uf_decl("exp", 1)
